@@ -52,3 +52,11 @@ Definition stmt_c02_dead : Prop := forall c ops,
   let s := wfinal c (ops ++ [WSettle]) in
   (exists a, finished s = Some (DErr a)) \/ dropped s = true ->
   forall i k, nth_error (calls s) i = Some k -> is_live (c_phase k) = false.
+
+(* the C02 monitor (ClientWake.c02_ok: settle terminates; nobody is left unresolved once the
+   dispatch failed or was dropped; an unresolved call on a writable, untampered transport has
+   something in flight; every delivered response has been read) accepts every wake-driven run of
+   the model *)
+Definition stmt_c02_monitor : Prop := forall c ops,
+  wno_wrap ops -> (1 <= cf_qcap c)%nat ->
+  c02_ok c ops (wrun c ops) = true.
